@@ -67,8 +67,8 @@ def main():
         meta = json.load(open(mp))
         for pid, f in sorted(meta.get('checks_fired', {}).items()):
             if f.get('exit') != 1 or not f.get('rules'): continue
-            ms.append({'id': f'{meta["seed_id"]}:{pid}', 'property': pid, 'expect_rule': f['rules'][0], 'patch': os.path.join(os.path.dirname(mp), 'patch.diff'),
-                       'note': 'seeded: ' + meta.get('change', '')[:90]})
+            ms.append(dict({'id': f'{meta["seed_id"]}:{pid}', 'property': pid, 'expect_rule': f['rules'][0], 'patch': os.path.join(os.path.dirname(mp), 'patch.diff'),
+                       'note': 'seeded: ' + meta.get('change', '')[:90]}, **({'tier': meta['tier']} if meta.get('tier') else {})))
     # behaviour-preserving refactorings written by independent sub-agents (refactors/<id>/): no check may raise an alarm
     allp = [c['property_id'] for c in json.load(open(os.path.join(VERIF, 'MANIFEST.json')))['checks']]
     for mp in sorted(glob.glob(os.path.join(VERIF, 'refactors', '*', 'meta.json'))):
